@@ -32,7 +32,7 @@ TECHNIQUE = "property-based testing (Hypothesis): model-based oracle over genera
 
 
 def cases(tier):
-    return 4000 if tier == "quick" else 200000
+    return 4000 if tier == "quick" else 100000
 
 
 def strategy(hazards):
